@@ -7,9 +7,11 @@ Deciding method: Lean theorems of `TriompheModel.Props.C17` about the model `Mod
 The proofs are short because the model of the four impls is a delegation, exactly as the source;
 the weight is in the two ties:
 
-Tie A: the translator (vlib/traits_facts) reports the bodies of the four serde impls in delegation
-form; `obl_serde_impl_forms` (by `decide`) demands `(**self).serialize(serializer)` and
-`T::deserialize(deserializer).map(X::new)` for Arc and UniqueArc and no other serde impl.
+Tie A: the translator (vlib/traits_facts) reports the census of serde entry points; `obl_serde_impl_census`
+(by `decide`) demands exactly Serialize::serialize and Deserialize::deserialize for Arc and UniqueArc and no
+other serde trait method (so `deserialize_in_place` is serde's provided one).  Whether the four bodies are
+spelled as the literal delegation is *advisory*: a body the translator does not recognise makes this run use
+the thorough-sized correspondence sample (the bodies are tied to the model by Tie B, not by their spelling).
 
 Tie B: harness binary `serdecorr` (recording serde::Serializer with every method, replaying
 Deserializer over an in-memory value tree, failure injected at the k-th callback, tracking
@@ -284,7 +286,14 @@ def run(ctx):
         common.harness_build_failed(ctx, "serdecorr", bout, what="the serde correspondence harness")
         return
     rnd = random.Random(ctx.seed)
-    payloads = fixed_payloads() + random_payloads(rnd, 30 if not ctx.thorough() else 300, ctx.thorough())
+    forms = {(r[0], r[1], r[2]): r[3] for r in serde_rows}
+    recognised = (forms.get(("Serialize", "Arc", "serialize")) == "derefSerialize" and forms.get(("Serialize", "UniqueArc", "serialize")) == "derefSerialize"
+                  and forms.get(("Deserialize", "Arc", "deserialize")) == "mapNew" and forms.get(("Deserialize", "UniqueArc", "deserialize")) == "mapNew")
+    ctx.coverage["generated_facts"]["bodies_are_literal_delegations"] = recognised
+    deep = ctx.thorough() or not recognised
+    if not recognised:
+        ctx.notes.append("advisory: a serde impl body is not spelled as the literal delegation (%s); the correspondence sample of this run is the thorough-sized one" % forms)
+    payloads = fixed_payloads() + random_payloads(rnd, 300 if deep else 30, deep)
     seen = set()
     payloads = [p for p in payloads if not (" ".join(p) in seen or seen.add(" ".join(p)))]
     res = explore(ctx, binpath, drv, payloads)
